@@ -269,6 +269,42 @@ pub fn sets(ctx: &Ctx) -> Vec<CaseSet> {
         }),
     ));
 
+    // 1b. decimal literals whose digit string runs through a 64-bit boundary: the
+    // decimal point at every position of the boundary's digits, followed by
+    // digits that round down / half / up, with and without an exponent
+    let tb1b = tb.clone();
+    let thorough = ctx.thorough;
+    out.push(CaseSet::new(
+        "decimal-point-through-int-boundaries",
+        n_b,
+        Box::new(move |rep, _rng, case| {
+            let x = tb1b.ints[case as usize];
+            let digits = x.unsigned_abs().to_string();
+            let tails: &[&str] = if thorough { &["", "0", "1", "4", "5", "6", "9", "49", "50", "51", "99", "4999999999999999999999", "5000000000000000000000", "5000000000000000000001", "000"] } else { &["", "0", "4", "5", "9", "50", "99", "5000000000000000000001"] };
+            let exps: &[&str] = if thorough { &["", "e0", "e1", "e-1", "e3", "E-3", "e+19", "e-19", "e22", "e-22", "e23", "e290"] } else { &["", "e3", "E-3", "e+19"] };
+            for sign in ["", "-"] {
+                for pos in 0..=digits.len() {
+                    for tail in tails {
+                        for e in exps {
+                            let ip = &digits[..pos];
+                            let fp = format!("{}{}", &digits[pos..], tail);
+                            if ip.is_empty() || (fp.is_empty() && e.is_empty()) {
+                                // ".5" is not a literal of the grammar; a bare integer is stream 1's
+                                if ip.is_empty() {
+                                    let t = format!("{}0.{}{}", sign, fp, e);
+                                    check(rep, &t, nofast, "decimal-boundary");
+                                }
+                                continue;
+                            }
+                            let t = if fp.is_empty() { format!("{}{}{}", sign, ip, e) } else { format!("{}{}.{}{}", sign, ip, fp, e) };
+                            check(rep, &t, nofast, "decimal-boundary");
+                        }
+                    }
+                }
+            }
+        }),
+    ));
+
     // 2. random digit strings up to 400 digits
     out.push(CaseSet::new(
         "random-digit-strings",
